@@ -184,7 +184,7 @@ class FnCtx:
             if nm != name or "sp" not in use or end(st) > start(use):
                 continue
             if anc is None:
-                inside = use if id(use) in self.pm else site
+                inside = use if id(use) in self.pm else (use.get("_site") or site)
                 anc = {id(a) for a in ancestors(self.pm, inside)} if inside is not None else set()
             if blk is not None and id(blk) not in anc:
                 continue
@@ -253,7 +253,7 @@ class Emission:
             elif name.isdigit():
                 e = fm.positional[int(name)] if int(name) < len(fm.positional) else None
             else:
-                e = fm.named.get(name) or {"k": "path", "path": name, "sp": fm.template_node["sp"]}
+                e = fm.named.get(name) or {"k": "path", "path": name, "sp": fm.template_node["sp"], "_site": fm.node}
             if e is None:
                 raise mir.AnchorMissing(f"format template {t!r}: hole without argument")
             self.hole(e, spec, fm.node)
@@ -290,18 +290,27 @@ class Emission:
         """holes replaced by their case-conversion chain (what is done to the name), e.g. <to_snake_case>"""
         def conv(m):
             e, spec, _ = self.holes[int(m.group(1))]
-            return "⟨" + ".".join(conv_chain(e)[1]) + (":" + spec if spec else "") + "⟩"
+            return "⟨" + ".".join(conv_chain(e, self.ctx)[1]) + (":" + spec if spec else "") + "⟩"
         return MARK_RE.sub(conv, text)
 
 
-def conv_chain(e):
-    """(root expression, [argument-less methods applied to it, innermost first]) ignoring identity conversions"""
+def conv_chain(e, ctx=None):
+    """(root expression, [argument-less methods applied to it, innermost first]) ignoring identity conversions;
+    values prepared by an immutable `let` are looked through"""
     e = strip_ref(e)
     ms = []
-    while e.get("k") == "mcall" and not e["args"]:
-        if e["method"] not in IDENTITY_METHODS:
-            ms.append(e["method"])
-        e = strip_ref(e["recv"])
+    for _ in range(16):
+        if e.get("k") == "mcall" and not e["args"]:
+            if e["method"] not in IDENTITY_METHODS:
+                ms.append(e["method"])
+            e = strip_ref(e["recv"])
+            continue
+        if ctx is not None and e.get("k") == "path" and "::" not in e["path"]:
+            st = ctx.visible_let(e["path"], e)
+            if st is not None:
+                e = strip_ref(st["init"])
+                continue
+        break
     return e, ms[::-1]
 
 
@@ -774,7 +783,7 @@ def r4(rep, c):
     hem, hfrag, hsite = hids[0]
     hshape = hem.shape(hfrag)
     # the id is a conversion of the `name` parameter only
-    roots = [hctx.rtext(conv_chain(hem.holes[int(i)][0])[0]) for i in MARK_RE.findall(hfrag)]
+    roots = [hctx.rtext(conv_chain(hem.holes[int(i)][0], hctx)[0]) for i in MARK_RE.findall(hfrag)]
     pnames = [p for p in hfn.params if p and p != "self"]
     name_param = roots[0] if len(roots) == 1 and roots[0] in pnames else None
     rep.ob("R29.4", "print_type_header: the id is a case conversion of one parameter (the type name)",
@@ -796,7 +805,7 @@ def r4(rep, c):
                 rep.ob("R29.4", f"print_ty: link fragment `#{exp}` uses print_type_header's id conversion `{hshape}`",
                        sh == hshape, f"fragment shape `{sh}` vs id shape `{hshape}`: the link would dangle", fn.loc(site))
                 # the converted value is the printed type's own name: bound by `if let Some(x) = &<ty>.name`
-                hole_roots = [conv_chain(em.holes[int(i)][0])[0] for i in MARK_RE.findall(frag)]
+                hole_roots = [conv_chain(em.holes[int(i)][0], ctx)[0] for i in MARK_RE.findall(frag)]
                 ok = False
                 if len(hole_roots) == 1 and hole_roots[0].get("k") == "path":
                     x = hole_roots[0]["path"]
